@@ -30,7 +30,12 @@ default (implied document) reading of the same root only.  Namespace nodes come 
 select() as URI strings (documented elementpath convention): their identity is checked
 through token.select() only.  xml.etree has no document-level comments / PIs and no
 namespace declarations: DocLevel trees are lxml-only, and the declared prefixes are passed to
-xml.etree evaluations through `namespaces=`.
+xml.etree evaluations through `namespaces=` (the default namespace as the '' key).
+With the declarations "dp" (xmlns="urn:d" xmlns:p="urn:n" on the root) the elements below the
+root may be in NO namespace next to like-local-named siblings in urn:d (the in-memory form of
+xmlns=""): lxml SubElement(parent, 'a') / xml.etree tag 'a' with namespaces={'': 'urn:d'}.  Both
+libraries report the root's declarations as in scope of every element, so every element has the
+namespace nodes xml + declared prefixes (tree-building convention, not judged here).
 """
 from __future__ import annotations
 
@@ -53,7 +58,7 @@ CONFIGS = {
         ('N3-R2', dict(N=3, Kinds=ALL_KINDS, RootCfg="R2", Decls=ALL_DECLS, DocLevel=False)),
         ('N3-R3', dict(N=3, Kinds=ALL_KINDS, RootCfg="R3", Decls=ALL_DECLS, DocLevel=False)),
         ('N4-R1-pos', dict(N=4, Kinds={"a0", "b0", "t", "c", "pp", "pa"}, RootCfg="R1", Decls={"none"}, DocLevel=True)),
-        ('N4-R2-ns', dict(N=4, Kinds={"ad", "an", "xa0", "xan", "t"}, RootCfg="R2", Decls={"dp"}, DocLevel=False)),
+        ('N4-R2-ns', dict(N=4, Kinds={"ad", "a0", "an", "xa0", "t"}, RootCfg="R2", Decls={"dp"}, DocLevel=False)),
         ('N4-R3-pos', dict(N=4, Kinds={"a0", "an", "c", "pp", "t"}, RootCfg="R3", Decls={"p"}, DocLevel=False)),
     ],
     'thorough': [
@@ -62,7 +67,7 @@ CONFIGS = {
         ('N4-R2', dict(N=4, Kinds=ALL_KINDS, RootCfg="R2", Decls=ALL_DECLS, DocLevel=False)),
         ('N4-R3', dict(N=4, Kinds=ALL_KINDS, RootCfg="R3", Decls=ALL_DECLS, DocLevel=False)),
         ('N5-R1-pos', dict(N=5, Kinds={"a0", "b0", "t", "c", "pp", "pa"}, RootCfg="R1", Decls={"none"}, DocLevel=True)),
-        ('N5-R2-ns', dict(N=5, Kinds={"ad", "an", "xa0", "xan", "t"}, RootCfg="R2", Decls={"dp"}, DocLevel=False)),
+        ('N5-R2-ns', dict(N=5, Kinds={"ad", "a0", "an", "xa0", "t"}, RootCfg="R2", Decls={"dp"}, DocLevel=False)),
         ('N5-R3-pos', dict(N=5, Kinds={"a0", "an", "c", "pp", "t"}, RootCfg="R3", Decls={"p"}, DocLevel=False)),
     ],
 }
